@@ -80,7 +80,12 @@ func VerifC06Tick() {
 		if vEq(vAlphabetAcct(), vCommitteeAcct()) { // committees of 1, 2 or 4: the two accounts coincide
 			a = a || c
 		}
-		vAssume(e >= -2 && e <= 1000)
+		if vParam(5) == 1 { // param 5 = 1: epochs up to 2^32-1, everything the four-byte key of a node list can hold
+			// (from 2^31 on the integer takes FIVE bytes on NeoVM: a sign byte)
+			vAssume(e >= -2 && e <= 4294967295)
+		} else {
+			vAssume(e >= -2 && e <= 1000)
+		}
 		preEpoch, preBlock := readInt("netmap", "epoch"), readInt("netmap", "lastEpochBlock")
 		preN, preSt, preM := candidates()
 		_, pm := vRead("netmap", "netmap")
@@ -110,6 +115,9 @@ func VerifC06Tick() {
 			vAssert(len(ln) == wantStructured && (wantStructured == 0 || vEq(ln[0].Key, vKey("n1"))), "C06/structured-map-is-the-structured-candidates")
 			if i == 1 && wantLegacy == 0 {
 				vCover("empty-maps-published")
+			}
+			if vParam(5) == 1 {
+				vCoverIf(e >= 2147483648, "tick-to-an-epoch-with-the-top-bit-set")
 			}
 			vAssert(readInt("probe1", "last") == e && readInt("probe2", "last") == e, "C06/every-subscriber-called-with-the-epoch")
 			names := vEventNames()
